@@ -12,8 +12,11 @@ The model mirrors the decisions the code TAKES, in the order it takes them:
   an explicit auto-increment value `≤ maxPK` must exist (`pkMustExist`) else `ErrInvalidValue`;
 * NULL given for a NOT NULL / auto-increment column → error; UPDATE … SET col = NULL performs NO such
   check (`UpdateStmt.execAt` only calls `requiresType`): the model has none either;
-* CHECK (`checkConstraints`), then `encodedKey` (NULL key → `ErrPKCanNotBeNull`, too long →
-  `ErrMaxLengthExceeded`), then the existence test `tx.get(mappedPKey)`: `OngoingTx.Get` applies the
+* CHECK (`checkConstraints`), then `encodedKey`: ONE loop over the key columns in index order, and
+  the first column that is missing/NULL (`ErrPKCanNotBeNull`) or does not encode
+  (`ErrMaxLengthExceeded`) decides — a too long value in an earlier key column wins over a NULL in
+  a later one and vice versa (`encodedKey` below); then the existence test `tx.get(mappedPKey)`:
+  `OngoingTx.Get` applies the
   `IgnoreDeleted` filter to the SNAPSHOT's entry before the tx's own pending entry is substituted, so a
   key deleted earlier in the same tx is still found; a key written in this tx is found: `known`;
 * INSERT on an existing key → `ErrKeyAlreadyExists`, ON CONFLICT DO NOTHING → the row is skipped;
@@ -25,11 +28,22 @@ The model mirrors the decisions the code TAKES, in the order it takes them:
   index values; the store's injective indexer marks the old mapped key deleted).
 * NULLs are equal in a UNIQUE index (one key for NULL); −0.0 and +0.0 are different keys (C15 F5).
 
+Order of the errors of one VALUES row, as in `UpsertIntoStmt.execAt`: (1) the column loop (NOT NULL /
+auto-increment rules — the Go loop ranges over the MAP `table.colsByID`, so the relative order of two
+errors raised inside it is not determined by the code; within the modelled fragment the only error class
+it can raise is `ErrNotNullableColumnCannotBeNull`, a non-numeric auto-increment value being outside
+the fragment; the model walks the columns in table order), (2) CHECK, (3) `encodedKey` column by
+column, (4) `pkMustExist` → `ErrInvalidValue`, (5) existing key → `ErrKeyAlreadyExists` / skip,
+(6) `doUpsert`: `encodeRowValue` over ALL columns in table order (`ErrMaxLengthExceeded` of a non-key
+column comes only here, after (4) and (5)), then the indexes in catalog order (UNIQUE lookup).
+UPDATE: `validate` (`ErrPKCanNotBeUpdated`) precedes the first row read; per row CHECK, `encodedKey`,
+`tx.get` (`ErrKeyNotFound`), `doUpsert`.
+
 NOT modelled (kept out of the correspondence, see DESIGN "C12 — as built"): the transient index
 entries of an open transaction (statements writing several rows of a table with secondary indexes),
 DEFAULT values, JSON, implicit INTEGER→FLOAT conversion.  Core Lean only.
 -/
-import ImmuModel.Sql.Query
+import ImmuModel.Sql.Plan
 namespace ImmuModel.Sql
 open ImmuModel
 
@@ -104,6 +118,30 @@ def idxEnc (s : Schema) (cs : List Nat) (row : Row) : Except DmlErr Bytes := do
   let ic ← liftE (pickCols s.kcols cs)
   let iv ← liftE (pick row cs)
   liftE (encTuple ic iv)
+
+/-- the loop of `encodedKey(index, valuesByColID)`: per key column, in index order, first
+`!specified || rval.IsNull()` → `ErrPKCanNotBeNull`, then `EncodeValueAsKey` (→ `ErrMaxLengthExceeded`);
+the first column with a problem decides. -/
+def encKeyCols : List Col → List Val → Except DmlErr Bytes
+  | [], [] => .ok []
+  | c :: cs, v :: vs =>
+    if v == Val.null then .error .pkNull
+    else
+      match encodeKey v c.ty c.maxLen with
+      | .error .maxLenExceeded => .error .maxLen
+      | .error _ => .error (.eval .keyEnc)
+      | .ok (e, _) =>
+        match encKeyCols cs vs with
+        | .error e' => .error e'
+        | .ok r => .ok (e ++ r)
+  | _, _ => .error (.eval .keyEnc)
+
+/-- `encodedKey(table.primaryIndex, valuesByColID)`; on success it is `pkEnc` of a row without NULL
+in the key (`DmlMainAux.encodedKey_ok`). -/
+def encodedKey (s : Schema) (row : Row) : Except DmlErr Bytes := do
+  let pc ← liftE (pickCols s.kcols s.pk)
+  let pv ← liftE (pick row s.pk)
+  encKeyCols pc pv
 
 /-- `NewTx`: the transaction's catalog loads `maxPK`; the snapshot fixes which keys `Get` finds. -/
 def beginTx (s : Schema) (db : DB) : Except DmlErr DB := do
@@ -289,21 +327,14 @@ def insRow (s : Schema) (k : InsKind) (cols : List Nat) (vals : List Val) (db : 
           | .ok (r, d, m) => .ok (v :: r, d, m)
   let (row, db1, must) ← build 0 s.cols db false
   checkOK s row
-  -- encodedKey
-  let pv ← liftE (pick row s.pk)
-  if pv.any (· == .null) then throw .pkNull
-  let key ← pkEnc s row
+  -- encodedKey: key columns in order, NULL / too long, whichever comes first
+  let key ← encodedKey s row
   let exists_ := db1.known.contains key
   if !exists_ && must then throw .invalidValue
   if k != .upsert && exists_ then
     if k == .ocn then pure db1 else throw .dupKey
   else
     doUpsert s db1 row (k == .upsert)
-
-def matching (w : Option Pred) (rows : List Row) : Except DmlErr (List Row) :=
-  match w with
-  | none => .ok rows
-  | some p => rows.filterM (fun r => liftE (keeps p r))
 
 def applySets (sets : List SetItem) (row : Row) : Except DmlErr Row :=
   sets.foldlM (fun r st =>
@@ -314,27 +345,32 @@ def applySets (sets : List SetItem) (row : Row) : Except DmlErr Row :=
       | none, _ => throw .outOfModel
     else if st.col < r.length then pure (r.set st.col st.v) else throw .outOfModel) row
 
-/-- rows in primary-key order (the scan order of UPDATE / DELETE without a usable secondary index) -/
+/-- rows in primary-key order (the scan order of UPDATE / DELETE without WHERE) -/
 def pkOrdered (s : Schema) (rows : List Row) : Except DmlErr (List Row) := do
   let ks ← rows.mapM (fun r => do let k ← pkEnc s r; pure (k, r))
   pure ((sortByKey ks).map (·.2))
 
+/-- the rows an UPDATE / DELETE reads, in reading order: the plan of the statement's `SelectStmt`
+(`Plan.lean`: primary index unless a secondary index has an equality-covered leading column; the scan
+window is made of key bytes, the WHERE is re-evaluated on the rows of the window) -/
+def selectRows (s : Schema) (rows : List Row) : Option Pred → Except DmlErr (List Row)
+  | none => pkOrdered s rows
+  | some p => liftE (planRows s.kcols s.pk (s.idx.map (·.2)) rows p)
+
 def exec (s : Schema) (db : DB) : Stmt → Except DmlErr DB
   | .ins k cols rows => rows.foldlM (fun d vals => insRow s k cols vals d) db
   | .upd sets w => do
-    let hit ← matching w (← pkOrdered s db.rows)
-    -- `validate` runs after Resolve, before the first row
+    -- `validate` runs after Resolve, before the first row is read (before any WHERE evaluation)
     if sets.any (fun st => s.pk.contains st.col) then throw .pkUpdate
+    let hit ← selectRows s db.rows w
     hit.foldlM (fun d old => do
       let new ← applySets sets old
       checkOK s new
-      let pv ← liftE (pick new s.pk)
-      if pv.any (· == .null) then throw .pkNull
-      let key ← pkEnc s new
+      let key ← encodedKey s new
       if !d.known.contains key then throw .keyNotFound
       doUpsert s d new true) db
   | .del w => do
-    let hit ← matching w (← pkOrdered s db.rows)
+    let hit ← selectRows s db.rows w
     hit.foldlM (fun d old => do
       let key ← pkEnc s old
       let dead ← newTombs s old none
